@@ -422,6 +422,35 @@ EXC_CLASSES = [
     FileNotFoundError, ReferenceError, UserError, UserValueError, DeepUserError, TypeError, UserTypeError, FloatingPointError,
     CodedError, StatusError,
 ]
+
+
+def _library_exceptions():
+    """Exceptions of the library itself (and of xmlrpc.client) raised by a method -
+    a gateway relaying what its own ServerProxy raised: they are 'any other
+    exception' too"""
+    import xmlrpc.client as X
+    from jsonrpclib import jsonclass as JC, jsonrpc as J
+    from jsonrpclib.SimpleJSONRPCServer import NoMulticallResult
+
+    def named(name, f):
+        f.__name__ = name
+        return f
+    return [
+        named("ProtocolError", lambda m: J.ProtocolError(("E_NOT_FOUND", m))),
+        named("ProtocolError", lambda m: J.ProtocolError((-32000.5, {"text": m}))),
+        named("ProtocolError", lambda m: J.ProtocolError((-32601, m))),
+        named("ProtocolError", lambda m: J.ProtocolError(m)),
+        named("AppError", lambda m: J.AppError((404, m, {"detail": [1]}))),
+        named("AppError", lambda m: J.AppError((None, m, None))),
+        named("TransportError", lambda m: J.TransportError("http://upstream/rpc", 503, m, {})),
+        named("Fault", lambda m: X.Fault(7, m)),
+        named("ProtocolError", lambda m: X.ProtocolError("upstream/rpc", 502, m, {})),
+        named("TranslationError", lambda m: JC.TranslationError(m)),
+        named("NoMulticallResult", lambda m: NoMulticallResult(m)),
+    ]
+
+
+N_LIBRARY = 11
 _LINEBREAKS = "\n\r\x0b\x0c\x1c\x1d\x1e\x85  "
 messages = st.one_of(
     st.text(st.characters(blacklist_categories=("Cs",), blacklist_characters=_LINEBREAKS), max_size=20),
@@ -431,7 +460,8 @@ messages = st.one_of(
 
 @st.composite
 def exception_cases(draw):
-    return {"exc": draw(st.integers(0, len(EXC_CLASSES) - 1)), "message": draw(messages),
+    return {"exc": draw(st.one_of(st.integers(0, len(EXC_CLASSES) - 1), st.integers(0, len(EXC_CLASSES) - 1),
+                                  st.integers(len(EXC_CLASSES), len(EXC_CLASSES) + N_LIBRARY - 1))), "message": draw(messages),
             "noargs": draw(st.integers(0, 9)) == 0,
             "params": draw(st.sampled_from([[], [1, "x"], {"a": 1}])),
             "via": draw(st.sampled_from(["function", "instance", "nested-instance"])),
@@ -443,14 +473,15 @@ def oracle_exception(case):
     from jsonrpclib.SimpleJSONRPCServer import SimpleJSONRPCDispatcher
     from jsonrpclib.config import Config
 
-    cls = EXC_CLASSES[case["exc"]]
+    library = case["exc"] >= len(EXC_CLASSES)
+    cls = _library_exceptions()[case["exc"] - len(EXC_CLASSES)] if library else EXC_CLASSES[case["exc"]]
     log = []
     raised = []
 
     def inner(level):
         if level > 0:
             return inner(level - 1)
-        ex = cls() if case["noargs"] else cls(case["message"])
+        ex = cls() if case["noargs"] and not library else cls(case["message"])
         raised.append(ex)
         raise ex
 
@@ -470,7 +501,7 @@ def oracle_exception(case):
         name = "child.failing"
     o, code, n_direct, client = dispatch_and_proxy(disp, name, case["params"], case["version"], -32603, log)
     ex = raised[0]
-    if issubclass(cls, TypeError) and code == -32602:
+    if not library and issubclass(cls, TypeError) and code == -32602:
         fail("C05/typeerror-raised-in-body", "%s raised inside the method body is answered -32602 instead of -32603" % cls.__name__, o)
     if code != -32603:
         fail("C05/code:-32603->%s" % code, "%s(%r) raised by the method answered %r" % (cls.__name__, case["message"], o.get("error") or o.get("result")), o)
@@ -481,7 +512,7 @@ def oracle_exception(case):
         fail("C05/message", "message %r does not contain the exception text %r" % (msg, str(ex)), o)
     if len(log) != 2 or n_direct != 1:
         fail("C05/invocations", "raising method invoked %d times for 2 calls" % len(log))
-    return Info(nt=cls is not ValueError, classes=["exception", cls.__name__, "via:" + case["via"]],
+    return Info(nt=cls is not ValueError, classes=["exception", ("library:" if library else "") + cls.__name__, "via:" + case["via"]],
                 sample={"exception": "%s(%r)" % (cls.__name__, case["message"]), "via": case["via"], "reply-error": o["error"]})
 
 
